@@ -305,3 +305,19 @@ PROPS["C12"] = dict(
     assumptions=ASSUME_COMMON + ["a buffer start that is not 8-byte aligned leaves up to 7 unpoisoned bytes before it (ASan shadow granularity); over-reads/over-writes past the end are exact at every alignment",
                                  "UBSan 'alignment' is disabled (type-punned 32-bit accesses in x86-only SIMD files); pointer-overflow reports are scanned in the log and only 'zero offset to null pointer' is ignored"],
 )
+
+PROPS["C19"] = dict(
+    name="c19", sources=["props/c19.cpp"], engine="generated thread schedules + ThreadSanitizer", replay_policy=(5, 2),
+    builds=[("tsan", "native")],
+    builds_thorough=[("tsan", "native"), ("tsan", "portable")],
+    level="exploration",
+    rule=("Each trial is a fresh process of a ThreadSanitizer build (library and harness instrumented): N in 2..16 threads are released from a barrier, each with a generated pre-delay (none, k sched_yield calls, a spin of "
+          "generated length) so that the arrival order varies, call sodium_init() and then run a generated workload of 1..6 API-table drivers (all families: AEAD, box, sign, hashes, KDF, streams, codecs, padding, "
+          "small-cost password hashing) on thread-private buffers, followed by operations on shared library state: randombytes_buf/uniform/random on the active random source, key generators, crypto_*_keypair, "
+          "sodium_malloc/allocarray/mprotect_*/free. Two families: default random source (280 trials) and randombytes_internal_implementation installed before init (120 trials). Oracle: no ThreadSanitizer report "
+          "(happens-before: a race is flagged whenever the two accesses are unordered in the observed execution), exactly one thread gets 0 from sodium_init and all others 1, a later call returns 1, and every thread's "
+          "output digest equals the digest of the same workload recomputed sequentially after the join. A failing trial is re-run 5 times and reported if it fails at least twice. "
+          "Non-trivial = every trial has N >= 2; the histogram records trials in which >= 2 threads had reached sodium_init before the first one returned; distinct = (N, seed, family)."),
+    exhaustive_axes="",
+    assumptions=["ThreadSanitizer decides the executions it observed; hand-written assembly is not instrumented (it works on thread-private data only)", "clang 14 -O1 -fsanitize=thread build of /repo's working tree"],
+)
